@@ -167,7 +167,8 @@ def run(ctx):
                 ctx.check("wellformed-gate", "RfcDraft13/supported-version-found", okv, "Ok only when get_supported_version() is Some",
                           "Ok can be returned although no supported version was found", fn.loc(bb))
                 ver = payload[2][1] if payload[0] == "agg" else None
-                okver = ver is not None and is_call(values.strip_payload(ver), "get_supported_version")
+                from lib import payload_source
+                okver = ver is not None and is_call(payload_source(ver), "get_supported_version")
                 ctx.check("wellformed-gate", "RfcDraft13/returns-the-matched-version", okver, "returned version is the one matched", "returned version is %s" % fmt(ver), fn.loc(bb))
         if v == "RfcDraft13":
             # SRV mismatch edge must not reach the Ok return
